@@ -523,3 +523,47 @@ Definition observe (req : option request) (o : outcome response) : list Z :=
   | Done r _ log => 0 :: enc_response r ++ [-7] ++ enc_log (req_items req) log
   | Panicked _ _ log => 1 :: enc_log (req_items req) log
   end.
+
+(** ** Vocabulary of the property statements (projections of the ghost log) *)
+
+(* positions of the items whose handler was invoked, in invocation order *)
+Definition calls (log : list event) : list Z :=
+  flat_map (fun e => match e with EvCall i => [i] | _ => [] end) log.
+
+(* what the invoked handlers returned, in order *)
+Definition rets (log : list event) : list (Z * houtcome) :=
+  flat_map (fun e => match e with EvRet i o => [(i, o)] | _ => [] end) log.
+
+(* an item reaches a handler iff it carries no critical extension and its operation is routed *)
+Definition dispatches (cfg : config) (bi : item) : bool :=
+  match i_ext bi with Some true => false | _ => routed cfg (i_op bi) end.
+
+Definition reason_of_err (e : gerr) : Z :=
+  match err_as e with Some r => r | None => ReasonGeneralFailure end.
+
+(* what an item must report given what its handler did *)
+Definition status_of (o : houtcome) : Z := match o with HOk _ => StatusSuccess | _ => StatusFailed end.
+Definition reason_of (o : houtcome) : Z :=
+  match o with HOk _ => 0 | HErr _ e => reason_of_err e | HPanic pv => reason_of_err (panic_to_err pv) end.
+Definition payload_of (o : houtcome) : rpayload :=
+  match o with HOk rp => rp | HErr rp _ => rp | HPanic _ => RNil end.
+
+(* the placeholder as one request sees it: replaying its own log from value [v] *)
+Fixpoint flow (v : str) (log : list event) : option str :=
+  match log with
+  | [] => Some v
+  | EvRead _ HOwn x :: t => if str_eqb x v then flow v t else None
+  | EvRead _ HBare x :: t => if str_is_empty x then flow v t else None
+  | EvGetOr _ hc q r :: t =>
+    let seen := match hc with HOwn => v | HBare => [] end in
+    let want := if negb (str_is_empty q) then Some q else if negb (str_is_empty seen) then Some seen else None in
+    match r, want with
+    | Some a, Some b => if str_eqb a b then flow v t else None
+    | None, None => flow v t
+    | _, _ => None
+    end
+  | EvSet _ HOwn s :: t => flow s t
+  | EvClear _ HOwn :: t => flow [] t
+  | EvFailClear :: t => flow [] t
+  | _ :: t => flow v t
+  end.
